@@ -21,6 +21,7 @@ Post(p) ==
     /\ (cur' # 0) = p.cur
     /\ delivered' = Recs(p.delivered)
     /\ pushed' = Recs(p.pushed)
+    /\ \A w \in Watchers : wseen'[w] = Ints(p.wseen[w])
     /\ order' = Ints(p.order)
     /\ Len(order') = p.nmsgs
     /\ desync' = p.defunct
